@@ -76,6 +76,19 @@ def _child(conn, f, a):
         conn.close()
 
 
+_CLK = os.sysconf("SC_CLK_TCK") if hasattr(os, "sysconf") else 100
+
+
+def _cpu_seconds(pid):
+    """CPU time (user + system, waited-for children included) of a process, from /proc; None if unavailable."""
+    try:
+        with open("/proc/%d/stat" % pid) as f:
+            parts = f.read().rsplit(")", 1)[1].split()
+        return (int(parts[11]) + int(parts[12]) + int(parts[13]) + int(parts[14])) / float(_CLK)
+    except Exception:
+        return None
+
+
 def run_tasks(tasks, workers=None, task_timeout=None):
     """tasks: list of (callable, args).  Returns (list of obligation dicts, list of task errors).
     Every task runs in its own forked process and is killed after task_timeout seconds: a task
@@ -121,7 +134,11 @@ def run_tasks(tasks, workers=None, task_timeout=None):
         now = time.time()
         for c in list(running):
             pr, f, a, st = running[c]
-            if now - st > (task_timeout if ntimeouts < 6 else max(30, task_timeout / 8)):
+            limit = task_timeout if ntimeouts < 6 else max(30, task_timeout / 8)
+            cpu = _cpu_seconds(pr.pid)
+            # the budget is CPU time of the task (a busy machine must not turn a slow task into a failed obligation); wall clock only as an 8x backstop
+            over = (cpu > limit) if cpu is not None else (now - st > limit)
+            if over or now - st > 8 * limit:
                 ntimeouts += 1
                 pr.kill()
                 pr.join(5)
@@ -129,7 +146,7 @@ def run_tasks(tasks, workers=None, task_timeout=None):
                 del running[c]
                 fn = getattr(f, "contract_fn", f.__name__)
                 obs.append(ob("%s:terminates[task %s%r]" % (fn, f.__name__, a), fn, FAILED, "B", "watchdog",
-                              now - st, "the task did not finish within %d s and was killed "
+                              now - st, "the task did not finish within %d s of CPU time (8x that of wall time) and was killed "
                               "(non-termination or blow-up of the code under contract)" % task_timeout,
                               None, {"timeout": True}))
     return obs, errs
